@@ -755,6 +755,18 @@ def _angles(ctx, only=None):
                    _circ(ib[0], mb[k][0]) * abs(math.sin(math.radians(colat))) <= 3.6e-7) and not any(v != v for v in ib + mb[k])
             if not okb and not (all(v != v for v in ib) and all(v != v for v in mb[k])):
                 ctx.disagree('x2a', c, ib, mb[k])
+        # a truth value is a truth value: numpy booleans and 0 / 1 select the same convention as False / True
+        for flag in (np.bool_(lat), int(lat)):
+            try:
+                xf = angles_to_x(a[:50], latitude=flag)
+                bf = x_to_angles(x[:50], latitude=flag)
+                if not (np.array_equal(np.asarray(xf), x[:50], equal_nan=True) and np.array_equal(np.asarray(bf), back[:50], equal_nan=True)):
+                    ctx.violate('angles:flag-type-dependence', 'latitude=%r (%s) gives another result than latitude=%s' % (flag, type(flag).__name__, lat),
+                                {'stream': 'angles', 'lat': lat, 'p': [list(q) for q in a[:3].tolist()], 'flag': type(flag).__name__})
+                ctx.count('angles:flag-type:' + type(flag).__name__)
+            except Exception as e:
+                ctx.violate('angles:flag-type-exception', 'latitude=%r raises %r' % (flag, e),
+                            {'stream': 'angles', 'lat': lat, 'p': [list(q) for q in a[:3].tolist()], 'flag': type(flag).__name__})
         # documented signatures angles_to_x(points, latitude=False) / x_to_angles(points, latitude=False): positional = keyword
         try:
             xp = angles_to_x(a, lat)
